@@ -8,6 +8,7 @@ package main
 import (
 	"bufio"
 	"bytes"
+	"crypto/tls"
 	"encoding/json"
 	"fmt"
 	"io"
@@ -19,25 +20,51 @@ import (
 	"time"
 
 	v2 "mosn.io/mosn/pkg/config/v2"
+	"mosn.io/mosn/pkg/mtls/certtool"
+	"mosn.io/mosn/pkg/types"
 	"verif/e2e"
 	"verif/vh"
 )
 
 type readBook struct {
 	mu sync.Mutex
-	n  map[string]int64
+	n  map[string]int64 // bytes MOSN took from the socket of that client
+	ev map[string]int64 // reads that returned (with data or with the deadline error)
 	ch chan struct{}
 }
 
 func (b *readBook) add(remote string, n int64) {
 	b.mu.Lock()
 	b.n[remote] += n
+	b.ev[remote]++
 	b.mu.Unlock()
 	select {
 	case b.ch <- struct{}{}:
 	default:
 	}
 }
+
+func (b *readBook) events(remote string) int64 {
+	b.mu.Lock()
+	defer b.mu.Unlock()
+	return b.ev[remote]
+}
+
+// countConn counts the raw bytes a (TLS) client put on the wire.
+type countConn struct {
+	net.Conn
+	mu sync.Mutex
+	w  int64
+}
+
+func (c *countConn) Write(p []byte) (int, error) {
+	n, err := c.Conn.Write(p)
+	c.mu.Lock()
+	c.w += int64(n)
+	c.mu.Unlock()
+	return n, err
+}
+func (c *countConn) written() int64 { c.mu.Lock(); defer c.mu.Unlock(); return c.w }
 
 func (b *readBook) get(remote string) int64 {
 	b.mu.Lock()
@@ -55,13 +82,13 @@ func runE2E(casesPath string, nrand int) {
 		zs = append(zs, z)
 		return nil
 	}), "cases")
-	book := &readBook{n: map[string]int64{}, ch: make(chan struct{}, 1)}
+	book := &readBook{n: map[string]int64{}, ev: map[string]int64{}, ch: make(chan struct{}, 1)}
 	vh.Sink(func(name string, kv []interface{}) {
 		if name != "net.read" || len(kv) < 3 {
 			return
 		}
 		n, _ := kv[1].(int64)
-		if c, ok := kv[2].(net.Conn); ok && c != nil && n > 0 {
+		if c, ok := kv[2].(net.Conn); ok && c != nil {
 			if ra := c.RemoteAddr(); ra != nil {
 				book.add(ra.String(), n)
 			}
@@ -79,34 +106,90 @@ func runE2E(casesPath string, nrand int) {
 	faddr := e2e.FreeAddr()
 	lstFixed := e2e.BuildListener(e2e.ListenerSpec{Name: "c07f", Addr: faddr, Downstream: "Http1", Upstream: "Http1",
 		Routes: []e2e.RouteSpec{{Prefix: "/", Cluster: "c07c", TimeoutMs: 60000}}})
-	m := e2e.StartMosn(e2e.BuildConfig([]v2.Listener{lst, lstFixed},
+	// a listener in TLS inspector mode: serves TLS and plain-text clients on one port (first byte peeked)
+	iaddr := e2e.FreeAddr()
+	priv, err := certtool.GeneratePrivateKey("P256")
+	vh.Must(err, "tls key")
+	tmpl, err := certtool.CreateTemplate("c07", false, []string{"c07.test"})
+	vh.Must(err, "tls template")
+	ci, err := certtool.SignCertificate(tmpl, priv)
+	vh.Must(err, "tls cert")
+	lstInsp := e2e.BuildListener(e2e.ListenerSpec{Name: "c07i", Addr: iaddr, Downstream: "Auto", Upstream: "Http1",
+		Routes: []e2e.RouteSpec{{Prefix: "/", Cluster: "c07c", TimeoutMs: 60000}},
+		Extra: func(l *v2.Listener) {
+			l.Inspector = true
+			l.FilterChains[0].TLSContexts = []v2.TLSConfig{{Status: true, CACert: certtool.GetRootCA().CertPem,
+				CertChain: ci.CertPem, PrivateKey: ci.KeyPem}}
+		}})
+	m := e2e.StartMosn(e2e.BuildConfig([]v2.Listener{lst, lstFixed, lstInsp},
 		e2e.BuildClusters([]e2e.ClusterSpec{{Name: "c07c", Hosts: []string{up.Addr}}}), e2e.ScratchLog(dir)))
 	defer m.Close()
 	vh.Must(e2e.WaitListen(laddr, 10*time.Second), "mosn listener")
 	vh.Must(e2e.WaitListen(faddr, 10*time.Second), "mosn listener (fixed protocol)")
-	addrOf := map[string]string{"auto": laddr, "fixed": faddr}
+	vh.Must(e2e.WaitListen(iaddr, 10*time.Second), "mosn listener (inspector)")
+	addrOf := map[string]string{"auto": laddr, "fixed": faddr, "inspector": iaddr, "tls": iaddr}
 
 	base := 100
-	one := func(cls string, mode string, shapes []int, cutsOf func(r *run) []int) {
+	// kind: auto | fixed (plain-text client on that listener) | inspector (plain-text client on the inspector
+	// listener) | tls (TLS client on the inspector listener). pausesOf: offsets after which the client waits until
+	// a read of MOSN on this connection ended with the (lowered) read deadline.
+	one := func(cls string, kind string, shapes []int, cutsOf func(r *run) ([]int, []int)) {
+		mode, transport, peek := kind, "plain", 0
+		switch kind {
+		case "inspector":
+			mode, transport, peek = "auto", "inspector", 1
+		case "tls":
+			mode, transport = "auto", "tls"
+		}
 		if givenUp() {
 			return
 		}
 		sp := streamSpec{Proto: "Http1", Shapes: shapes, Base: base}
 		base += len(shapes)
 		r := prepare(sp)
-		cuts := cutsOf(r)
+		cuts, pauses := cutsOf(r)
+		if pauses == nil {
+			pauses = []int{}
+		}
+		pauseAt := map[int]bool{}
+		for _, p := range pauses {
+			pauseAt[p] = true
+		}
 		tr.Emit(vh.Ev{"ev": "run", "proto": "Http1", "cls": cls, "lens": r.lens, "units": r.lens, "mode": mode,
-			"conts": 0, "shapes": shapes, "cuts": cuts})
+			"conts": 0, "shapes": shapes, "cuts": cuts, "pauses": pauses, "transport": transport, "peek": peek})
 		nruns++
-		c, err := net.DialTimeout("tcp", addrOf[mode], 5*time.Second)
+		tc0, err := net.DialTimeout("tcp", addrOf[kind], 5*time.Second)
 		if err != nil {
 			vh.Must(err, "dial mosn")
 		}
-		defer c.Close()
-		if tc, ok := c.(*net.TCPConn); ok {
+		defer tc0.Close()
+		if tc, ok := tc0.(*net.TCPConn); ok {
 			tc.SetNoDelay(true)
 		}
-		me := c.LocalAddr().String()
+		me := tc0.LocalAddr().String()
+		var c net.Conn = tc0
+		var raw *countConn
+		if kind == "tls" {
+			raw = &countConn{Conn: tc0}
+			tc := tls.Client(raw, &tls.Config{InsecureSkipVerify: true, ServerName: "c07.test"})
+			tc0.SetDeadline(time.Now().Add(asyncWait))
+			if err := tc.Handshake(); err != nil {
+				tr.Emit(vh.Ev{"ev": "err", "what": "tls-handshake-failed"})
+				return
+			}
+			tc0.SetDeadline(time.Time{})
+			c = tc
+		}
+		// bytes of this client MOSN must have taken from the socket once everything written so far was read
+		expectRead := func(plain int) int64 {
+			if raw != nil {
+				return raw.written()
+			}
+			if kind == "inspector" {
+				return int64(plain - 1) // the peeked first byte is taken outside the read loop
+			}
+			return int64(plain)
+		}
 		// replies are consumed in the background: statuses in order
 		statuses := make(chan int, 64)
 		go func() {
@@ -150,7 +233,7 @@ func runE2E(casesPath string, nrand int) {
 			// event-based: MOSN took the chunk from the socket (a deadline only loses the exact segmentation)
 			dl := time.After(10 * time.Second)
 		sync:
-			for book.get(me) < int64(cpos) {
+			for book.get(me) < expectRead(cpos) {
 				select {
 				case <-book.ch:
 				case <-time.After(5 * time.Millisecond):
@@ -195,6 +278,35 @@ func runE2E(casesPath string, nrand int) {
 			if timedOut {
 				return
 			}
+			if pauseAt[cpos] && cpos < len(r.all) {
+				// nothing is in flight: the next read of MOSN on this connection that returns can only have ended
+				// with the read deadline (a deadline of ours only loses the pause, it decides nothing)
+				e0 := book.events(me)
+				dl3 := time.After(10 * time.Second)
+			pause:
+				for book.events(me) <= e0 {
+					select {
+					case <-book.ch:
+					case <-time.After(5 * time.Millisecond):
+					case <-dl3:
+						break pause
+					}
+				}
+				got := []map[string]interface{}{}
+				time.Sleep(300 * time.Microsecond)
+			drain2:
+				for {
+					select {
+					case a := <-reg.Arrived:
+						got = append(got, e2eIdentify(r, byTok, a))
+					default:
+						break drain2
+					}
+				}
+				arrived += len(got)
+				tr.Emit(vh.Ev{"ev": "pause", "got": got, "buffered": -1})
+				nfeeds++
+			}
 		}
 		// every request gets its own 200, in order
 		for k := range r.msgs {
@@ -214,19 +326,25 @@ func runE2E(casesPath string, nrand int) {
 			}
 		}
 	}
+	// phase A: default read deadline (15 s), no pauses: every zone case from all four kinds of client
+	var tz []zcase
 	for ci, z := range zs {
 		z := z
 		if z.Pre > 0 {
 			continue
 		}
-		for _, mode := range []string{"fixed", "auto"} {
-			one("e2e-zones", mode, shapesFor(z.Frames, ci), func(r *run) []int { return concreteCuts(r, z) })
+		if z.Tmo > 0 {
+			tz = append(tz, z)
+			continue
+		}
+		for _, kind := range []string{"fixed", "auto", "inspector", "tls"} {
+			one("e2e-zones", kind, shapesFor(z.Frames, ci), func(r *run) ([]int, []int) { return concreteCuts(r, z), nil })
 		}
 	}
 	rng := rand.New(rand.NewSource(vh.Seed() + 7))
 	for k := 0; k < nrand; k++ {
 		shapes := []int{1, 0, 2, 3, 0, 1}
-		one("e2e-random", []string{"fixed", "auto"}[k%2], shapes, func(r *run) []int {
+		one("e2e-random", []string{"fixed", "auto", "inspector", "tls"}[k%4], shapes, func(r *run) ([]int, []int) {
 			cuts, pos, n := []int{}, 0, len(r.all)
 			for pos < n {
 				step := 1 + rng.Intn(60)
@@ -239,8 +357,44 @@ func runE2E(casesPath string, nrand int) {
 				}
 				cuts = append(cuts, pos)
 			}
-			return cuts
+			return cuts, nil
 		})
+	}
+	// phase B: the read deadline of every connection accepted from now on is short; plain-text clients pause until
+	// it expired. (TLS clients are left out: a handshake that is slower than the deadline fails by design.)
+	// Each pause costs one deadline: the cases with a pause after the first byte, plus a seeded sample.
+	types.DefaultConnReadTimeout = 150 * time.Millisecond
+	var first, rest []zcase
+	for _, z := range tz {
+		if len(z.Pauses) == 0 {
+			continue
+		}
+		if z.Cuts[0] == 1 && z.Pauses[0] == 1 {
+			first = append(first, z)
+		} else {
+			rest = append(rest, z)
+		}
+	}
+	rng.Shuffle(len(first), func(i, j int) { first[i], first[j] = first[j], first[i] })
+	rng.Shuffle(len(rest), func(i, j int) { rest[i], rest[j] = rest[j], rest[i] })
+	nf, nr := 6, 10
+	if vh.Thorough() {
+		nf, nr = 40, 80
+	}
+	if len(first) > nf {
+		first = first[:nf]
+	}
+	if len(rest) > nr {
+		rest = rest[:nr]
+	}
+	for ci, z := range append(first, rest...) {
+		z := z
+		for _, kind := range []string{"auto", "inspector"} {
+			one("e2e-timeouts", kind, shapesFor(z.Frames, ci), func(r *run) ([]int, []int) {
+				c := concreteCuts(r, z)
+				return c, lastPauses
+			})
+		}
 	}
 }
 
